@@ -18,7 +18,7 @@ RULE = (
     "joined by at least one link; the multiset of arrowed edges (from,to) equals the multiset of (index(v1), "
     "index(v2)) over directed-family links with both ends members; an arrow-less edge implies a non-directed link "
     "joining that pair; every link with both ends members (self-loops included) leaves its pair joined by >= 1 edge. "
-    "Each case exports two universes over the same vertices one after the other (the second contains members linked to non-members that were members of the first) and requires that no vertex gained an attribute; then the first universe is exported again after a member left from the vertex side, another joined and the label attributes changed.  A few worlds are scaled up: a member with 70 / 300 links (optionally a self-loop among them) and universes whose first 258 / 300 members are isolated fillers.  Universe(vertices=) may be given a vertex twice (one node per distinct member); optionally a further vertex is attached to an existing edge with add_vertex (the edge still joins v1 and v2 only).  Non-trivial = >= 1 directed and >= 1 undirected internal link, or an internal self-loop, or a link leaving the "
+    "Each case exports two universes over the same vertices one after the other (the second contains members linked to non-members that were members of the first) and requires that no vertex gained an attribute; then the first universe is exported again after a member left from the vertex side, another joined and the label attributes changed.  A few worlds are scaled up: a member with 70 / 300 links (optionally a self-loop among them) and universes whose first 258 / 300 members are isolated fillers.  Optionally an export that FAILS comes first (the label function raises for one vertex - a member, or the first vertex of a larger universe that is not a member of the one checked).  Universe(vertices=) may be given a vertex twice (one node per distinct member); optionally a further vertex is attached to an existing edge with add_vertex (the edge still joins v1 and v2 only).  Non-trivial = >= 1 directed and >= 1 undirected internal link, or an internal self-loop, or a link leaving the "
     "universe; distinct = distinct case value."
 )
 ASSUMPTIONS = [
